@@ -128,9 +128,11 @@ func genTree(rt *rapid.T, label string, depth int, budget *int, allowDot bool) [
 				lens = []int{244, 250, 252, 253, 254, 255}
 			}
 			if l := rapid.SampledFrom(lens).Draw(rt, fmt.Sprintf("%s_%d_longlen", label, i)); l > len(nd.name) {
-				delete(used, nd.name)
-				nd.name += strings.Repeat("L", l-len(nd.name))
-				used[nd.name] = true
+				// (the short name stays taken: a later sibling that drew it again and was padded alike would be the same entry twice)
+				if long := nd.name + strings.Repeat("L", l-len(nd.name)); !used[long] {
+					nd.name = long
+					used[long] = true
+				}
 			}
 		}
 		if isDir {
